@@ -2,6 +2,7 @@ import SdJwt.Lemmas.Reject
 import SdJwt.Lemmas.Strip
 import SdJwt.Lemmas.RestoreAll
 import SdJwt.Lemmas.Complete
+import SdJwt.Lemmas.FlowSound
 /-!
 # C03 — the verifier never returns what the issuer did not sign, whatever the holder sends
 
@@ -170,3 +171,37 @@ example :
                   (some ["d0", "g1"])
     T.digests.Nodup ∧ T.allMarks.Nodup := by
   decide
+
+/-- **C03 at the level of `Verifier::verify`.** Let `T` be a conformant tree; suppose whatever
+the JWT library accepts carries the payload of `T` (the issuer's is the only validly signed
+payload around — unforgeability, a parameter of the model), and every decodable disclosure
+string is acceptable for `T` (collision resistance).  Then for EVERY presented string — any
+disclosures in any order, repetitions, foreign or malformed segments, with or without a
+key-binding JWT, under any key-binding policy — if the verifier returns claims at all, they are
+`T`'s claims with exactly those marked nodes present whose own and enclosing disclosures are
+among the presented segments (and the top-level `_sd_alg` dropped). -/
+theorem C03_verifier_flow (rt : Rt) (tok : String) (policy : Bool) (T : MJ) (inv : TreeInv T)
+    (hsig : ∀ j h p, rt.jwtDecode j = .ok (h, p) → p = T.payload)
+    (hacc : ∀ alg s d, fromBase64 (rt.env alg) s = .ok d → DOk T d) (h c : J)
+    (hv : Verifier.verify rt tok policy = .ok (h, c)) :
+    ∃ (alg : String) (strs : List String),
+      c = dropAlg (T.project (fun g => strs.any (fun s => rt.hash alg s = g))) :=
+  verifier_flow_sound rt tok policy T inv hsig hacc h c hv
+
+/-- the same for `Holder::verify` -/
+theorem C03_holder_flow (rt : Rt) (tok : String) (T : MJ) (inv : TreeInv T)
+    (hsig : ∀ j h p, rt.jwtDecode j = .ok (h, p) → p = T.payload)
+    (hacc : ∀ alg s d, fromBase64 (rt.env alg) s = .ok d → DOk T d) (h c : J) (ps : List PathEntry)
+    (hv : Holder.verify rt tok = .ok (h, c, ps)) :
+    ∃ (alg : String) (strs : List String),
+      c = dropAlg (T.project (fun g => strs.any (fun s => rt.hash alg s = g))) :=
+  holder_flow_sound rt tok T inv hsig hacc h c ps hv
+
+/-- what the verifier does whenever it returns: split, let the JWT library decide, restore from
+the segments found in the string, strip — for every string and every runtime -/
+theorem C03_verifier_shape (rt : Rt) (tok : String) (policy : Bool) (h c : J)
+    (hv : Verifier.verify rt tok policy = .ok (h, c)) :
+    ∃ parts p alg c0 ps, sdJwtParts tok.toList = .ok parts ∧
+      rt.jwtDecode (strOf parts.jwt) = .ok (h, p) ∧
+      restoreAll (rt.env alg) p (parts.disclosures.map strOf) = .ok (c0, ps) ∧ c = removeDigests c0 :=
+  verifier_verify_inv rt tok policy h c hv
